@@ -408,6 +408,23 @@ def classify(msg):
     return None
 
 
+def exhaustive_columns():
+    """thorough tier: EVERY ordered selection of 1..3 distinct columns (8 + 56 + 336), with one label dictionary and with
+    one per histogram, on a fixed two-histogram history with distinct values in every column"""
+    import itertools
+    base = {"init": {"kind": "list", "edges": [0.0, 0.5, 2.0]},
+            "ops": [{"op": "fill", "v": [0.25, 0.25, 1.0], "w": [4.0, 5.0, 16.0]}, {"op": "stat_err"}, {"op": "set_sys", "l": [0.125, 0.375]},
+                    {"op": "add_hist"}, {"op": "fill", "v": [0.0, 1.5, 1.75]}, {"op": "set_err", "l": [0.75, 1.25]},
+                    {"op": "set_sys", "l": [2.5, 3.5]}]}
+    out = []
+    for k in (1, 2, 3):
+        for cols in itertools.permutations(LABEL_KEYS, k):
+            for nlab in (1, 2):
+                labels = [{key: f"L{1 + 8 * j + i}" for i, key in enumerate(LABEL_KEYS)} for j in range(nlab)]
+                out.append(dict(base, write={"labels": labels, "columns": list(cols)}))
+    return out
+
+
 def _fails_as(case, key, workdir):
     m = oracle(case, workdir)
     return m is not None and classify(m) == key
@@ -415,13 +432,18 @@ def _fails_as(case, key, workdir):
 
 # ----------------------------------------------------------------------------- correspondence
 def correspondence(ctx, model_ok=True):
-    n = 400 if ctx.quick else 6000
+    n = 400 if ctx.quick else 12000
     cases = []
     corpus = os.path.join(C.VERIF, "corpus", ID)
     if os.path.isdir(corpus):
         for fn in sorted(os.listdir(corpus)):
             cases.append(json.load(open(os.path.join(corpus, fn)))["case"])
-    while len(cases) < n:
+    n_exh = 0
+    if not ctx.quick:
+        exh = exhaustive_columns()
+        cases += exh
+        n_exh = len(exh)
+    while len(cases) < n + n_exh:
         cases.append(gen_case(ctx.rng))
     gots = [H.run_impl(c, ctx.work) for c in cases]
     dist = {"ops": {}, "init": {}, "ended_by_exception": 0, "with_write": 0, "write_ok": 0, "max_histograms": 0, "length": {}}
@@ -439,13 +461,16 @@ def correspondence(ctx, model_ok=True):
         dist["write_ok"] += bool(g["write"] and "tables" in g["write"])
         if g["final"] is not None and len(c["ops"]) >= 2 and any(x != 0 for r in (g["final"]["H"]["data"] or []) for x in (r if isinstance(r, list) else [r])):
             keys.add(json.dumps(c, sort_keys=True))
+    dist["exhaustive_ordered_column_selections_up_to_3"] = n_exh
     out = {"evaluations": len(cases), "distinct_nontrivial": len(keys), "distribution": dist,
            "rule": "seeded random histories of 1-10 operations (fill scalar/list/ndarray with and without weights, add_histogram, scale, "
                    "set_error, set_systematic_error, statistical_error, add_bin, remove_bin, average, average_weighted, "
                    "average_weighted_by_error; valid and invalid arguments) on uniform and explicit unequal-width binnings, followed by "
                    "write_to_file with a random column subset/permutation and 1 / n / wrong number of label dictionaries; compared inside Coq: "
                    "shape signature of all arrays after EVERY operation, exception class, final values of all arrays, geometry accessors, parsed CSV; "
-                   "non-trivial = at least two operations, history not ended by an exception, some non-zero content; distinct by canonical JSON",
+                   "non-trivial = at least two operations, history not ended by an exception, some non-zero content; distinct by canonical JSON; "
+                   "thorough tier additionally: every ordered selection of 1..3 distinct columns x {one label dict, one per histogram} (800 cases, "
+                   "enumerated completely) on a fixed two-histogram state",
            "samples": cases[:3], "model_runner": "Eval vm_compute in generated cases files (sharded coqc), comparison by Model/HistCheck.v",
            "failures": [], "broken": []}
     codes, broken = H.run_cases(ctx, ID, cases, gots)
